@@ -213,4 +213,72 @@ theorem timeValid_fmtTime_aux {Y M D h m s : Nat} (hY : Y < 10000) (hM : 1 ≤ M
   simp only [g6'', decVal_eq, a2, b2, c2, d2, e2, f2]
   simp [hM.1, hM.2, hD.1, hD.2, hh, hm, hs]
 
+
+/-! ### a number is determined by its value -/
+
+theorem bytesLt_or_of_ne : ∀ a b : Bytes, a.length = b.length → a ≠ b → bytesLt a b = true ∨ bytesLt b a = true
+  | [], [], _, h => absurd rfl h
+  | [], _ :: _, hl, _ => by simp at hl
+  | _ :: _, [], hl, _ => by simp at hl
+  | c :: a, d :: b, hl, hne => by
+    by_cases h1 : c < d
+    · left; simp [bytesLt, h1]
+    · by_cases h2 : d < c
+      · right; simp [bytesLt, h2]
+      · have e : c = d := by
+          have n1 : ¬ c.toNat < d.toNat := fun h => h1 ((u8_lt_iff c d).mpr h)
+          have n2 : ¬ d.toNat < c.toNat := fun h => h2 ((u8_lt_iff d c).mpr h)
+          exact UInt8.toNat_inj.mp (by omega)
+        subst e
+        have hne' : a ≠ b := fun e => hne (by rw [e])
+        rcases bytesLt_or_of_ne a b (by simpa using hl) hne' with h | h
+        · left; simp [bytesLt, h]
+        · right; simp [bytesLt, h]
+
+theorem num_ge {d : Bytes} (hd : Num d) (hh : d.head? ≠ some 48) : 10 ^ (d.length - 1) ≤ decValue d := by
+  obtain ⟨hne, hdig, _⟩ := hd
+  cases d with
+  | nil => exact absurd rfl hne
+  | cons c cs =>
+    have hc := digit_range c (hdig c (by simp))
+    have hc48 : c.toNat ≠ 48 := by
+      intro e
+      apply hh
+      have : c = 48 := UInt8.toNat_inj.mp (by simpa using e)
+      simp [this]
+    simp only [decValue, List.length_cons, Nat.add_sub_cancel]
+    have : 1 * 10 ^ cs.length ≤ (c.toNat - 48) * 10 ^ cs.length := Nat.mul_le_mul_right _ (by omega)
+    omega
+
+theorem num_unique {a b : Bytes} (ha : Num a) (hb : Num b) (hv : decValue a = decValue b) : a = b := by
+  have pos : ∀ n : Nat, 1 ≤ 10 ^ n := fun n => Nat.one_le_two_pow.trans (Nat.pow_le_pow_left (by omega) n)
+  have key : ∀ x y : Bytes, Num x → Num y → x.head? ≠ some 48 → y.head? ≠ some 48 → decValue x = decValue y →
+      ¬ x.length < y.length := by
+    intro x y hx hy h1 h2 e hlt
+    have l1 := decValue_lt x hx.2.1
+    have l2 := num_ge hy h2
+    have : 10 ^ x.length ≤ 10 ^ (y.length - 1) := Nat.pow_le_pow_right (by omega) (by omega)
+    omega
+  rcases ha.2.2 with rfl | h1
+  · rcases hb.2.2 with rfl | h2
+    · rfl
+    · have := num_ge hb h2
+      have := pos (b.length - 1)
+      simp [decValue] at hv
+      omega
+  · rcases hb.2.2 with rfl | h2
+    · have := num_ge ha h1
+      have := pos (a.length - 1)
+      simp [decValue] at hv
+      omega
+    · have hl : a.length = b.length := by
+        have := key a b ha hb h1 h2 hv
+        have := key b a hb ha h2 h1 hv.symm
+        omega
+      by_cases e : a = b
+      · exact e
+      · rcases bytesLt_or_of_ne a b hl e with h | h
+        · have := (bytesLt_iff_decValue a b ha.2.1 hb.2.1 hl).mp h; omega
+        · have := (bytesLt_iff_decValue b a hb.2.1 ha.2.1 hl.symm).mp h; omega
+
 end ModVerif.Proofs.Pseudo
